@@ -21,7 +21,16 @@ def run(pid, tier, seed, replay):
         env["VERIF_REPLAY_CASES"] = cf
     lines = ctx.go_driver("server/encryption", ["encryption/c17_test.go"], "^TestVerifC17$", env=env, timeout=900)
     cases = [l for l in lines if l.get("k") == "enc"]
+    # server level: encrypted streams under the three batching configurations
+    slines = ctx.go_driver("server", ["server/srv_test.go", "server/c17_test.go"], "^TestVerifC17Server$",
+                           env={"VERIF_N": 2 if tier == "quick" else 20}, timeout=3000)
+    srv_cases = [l for l in slines if l.get("k") == "encsrv"]
     dist = {}
+    for l in slines:
+        if l.get("k") == "stat":
+            dist.update({"server/" + k: v for k, v in l["dist"].items()})
+        if l.get("k") == "violation":
+            ctx.add_violation(l["sig"], l["what"], [l["case"]])
     for l in lines:
         if l.get("k") == "stat":
             dist.update(l["dist"])
@@ -52,7 +61,7 @@ def run(pid, tier, seed, replay):
         ctx.tie_problems.append({"what": "correspondence Codec.EncFrame.enc_mismatches: %d reads differ from the model" % len(mism), "first": mism[:3]})
     nontriv = set(c["data"] for c in cases if c.get("class") in ("sealed", "keysize-byte", "bitflip", "truncated", "other-master-key", "extended"))
     return ctx.finish(
-        coverage={"input_distribution": dist, "reads": len(cases)},
+        coverage={"input_distribution": dist, "reads": len(cases), "server_streams": len(srv_cases), "server_messages": sum(c["stored"] for c in srv_cases)},
         samples=[{k: c[k] for k in c if k != "k"} for c in cases[2:4]],
-        rule="values (empty, 1 byte, 16-32 bytes, 200 bytes, repetitive text, random) sealed with the real handler; for each sealed form: the untouched read, a read under a second master key, all 255 other values of the key-size byte, one flipped bit at every other position, every truncation, appended bytes; plus empty/nil/random inputs; non-trivial = derived from a sealed value; distinct by bytes",
+        rule="server level: encrypted streams on single-node servers without batching, with batches and with batches filled while waiting on the batch timer (the three receive sites of the message loop); nil/empty/1-byte/marker/long/random values published in concurrent bursts and one by one; the raw log must not hold a value in clear and must open to it, a subscriber must receive exactly the published bytes. Package level: values (empty, 1 byte, 16-32 bytes, 200 bytes, repetitive text, random) sealed with the real handler; for each sealed form: the untouched read, a read under a second master key, all 255 other values of the key-size byte, one flipped bit at every other position, every truncation, appended bytes; plus empty/nil/random inputs; non-trivial = derived from a sealed value; distinct by bytes",
         evaluations=len(cases), distinct_nontrivial=len(nontriv), traces=len(cases))
